@@ -48,6 +48,7 @@ func describe(sc *scenario, n int, o *outcome, v verdict) caseDesc {
 func dryRun(tt *testing.T, sc *scenario) (n int, o *outcome, v verdict) {
 	dry := *sc
 	dry.Ctx, dry.Deadline, dry.Timeout, dry.Plan = "background", 0, 0, plan{Kind: "never"}
+	dry.TimeoutNs = 0
 	o = runCase(tt, &dry)
 	v = judge(&dry, o)
 	return o.AtReturn.IOs, o, v
@@ -73,6 +74,10 @@ func baseline(dry, o *outcome, v verdict) string {
 
 func timeoutClass(sc *scenario) string {
 	switch {
+	case sc.TimeoutNs < 0:
+		return "negative"
+	case sc.TimeoutNs > 0:
+		return "1ns"
 	case sc.Timeout == 0:
 		return "none"
 	case !sc.hasDeadline():
@@ -177,6 +182,11 @@ func drawConfig(t *rapid.T) *scenario {
 	if rapid.IntRange(0, 2).Draw(t, "hasTimeout") > 0 {
 		sc.Timeout = 10*rapid.IntRange(0, 9).Draw(t, "timeout10") + 5
 	}
+	if rapid.IntRange(0, 11).Draw(t, "oddTimeout") == 0 {
+		// a remaining-budget computation that has run out, or has 1 ns left
+		sc.Timeout = 0
+		sc.TimeoutNs = rapid.SampledFrom([]int64{-1, -int64(5 * time.Millisecond), -int64(time.Hour), 1}).Draw(t, "timeoutNs")
+	}
 	sc.DialDelay = rapid.SampledFrom([]int{0, 0, 0, 10, 20, 40}).Draw(t, "dialDelay")
 	sc.DialFail = rapid.IntRange(0, 24).Draw(t, "dialFail") == 0
 	sc.RBuf = rapid.SampledFrom([]int{0, 0, 32, 128}).Draw(t, "rbuf")
@@ -250,6 +260,7 @@ func TestCancelAnywhere(t *testing.T) {
 		if dryV.Violation != "" {
 			dry := *sc
 			dry.Ctx, dry.Deadline, dry.Timeout, dry.Plan = "background", 0, 0, plan{Kind: "never"}
+			dry.TimeoutNs = 0
 			rt.Fatalf("%s\ncase (background context, no timeout): %s", dryV.Violation, hx.JSON(describe(&dry, n, dryOut, dryV)))
 		}
 		sc.Plan = drawPlan(rt, sc, n)
@@ -294,7 +305,7 @@ func TestStalledPeerLimits(t *testing.T) {
 		if sc.cancellable() && rapid.Bool().Draw(rt, "timedCancel") {
 			pl = plan{Kind: "at", At: 10*rapid.IntRange(0, 9).Draw(rt, "at10") + 7}
 		}
-		if sc.Timeout == 0 && !sc.hasDeadline() && pl.Kind == "never" {
+		if sc.Timeout == 0 && sc.TimeoutNs == 0 && !sc.hasDeadline() && pl.Kind == "never" {
 			sc.Timeout = 10*rapid.IntRange(0, 9).Draw(rt, "timeout10b") + 5
 		}
 		sc.Plan = pl
@@ -323,7 +334,7 @@ func TestSuccessRace(t *testing.T) {
 	hx.Check(t, 0.5, func(rt *rapid.T) {
 		sc := drawConfig(rt)
 		sc.DialFail = false
-		sc.Timeout = 0
+		sc.Timeout, sc.TimeoutNs = 0, 0
 		if sc.Wrap == "tls-default" {
 			sc.Wrap, sc.Peer.TLS = "both", false
 		}
@@ -335,6 +346,7 @@ func TestSuccessRace(t *testing.T) {
 		if dryV.Violation != "" || dryV.Infra != "" || dryOut.Err != nil {
 			dry := *sc
 			dry.Ctx, dry.Deadline, dry.Timeout, dry.Plan = "background", 0, 0, plan{Kind: "never"}
+			dry.TimeoutNs = 0
 			rt.Fatalf("undisturbed handshake with a valid response: err=%v %s%s\ncase: %s", dryOut.Err, dryV.Violation, dryV.Infra, hx.JSON(describe(&dry, n, dryOut, dryV)))
 		}
 		done := int(dryOut.TR / time.Millisecond) // multiple of 10
@@ -553,6 +565,14 @@ func TestEveryExpiryInstant(t *testing.T) {
 			sc.Ctx, sc.Timeout, sc.Plan = "causechild", 10*k+15, plan{Kind: "at", At: 10*k + 7}
 		}},
 		{"timeout/cancelcause", func(sc *scenario, k int) { sc.Ctx, sc.Timeout = "cancelcause", 10*k+5 }},
+		{"timeout-already-elapsed", func(sc *scenario, k int) {
+			sc.Ctx = []string{"background", "todo", "cancel", "custom", "deadline", "cancelcause", "value", "deadlinecause"}[k]
+			sc.Deadline, sc.TimeoutNs = 93, []int64{-1, -int64(time.Millisecond), -int64(time.Hour), -1 << 62}[k%4]
+		}},
+		{"timeout-1ns", func(sc *scenario, k int) {
+			sc.Ctx = []string{"background", "todo", "cancel", "custom", "deadline", "cancelcause", "value", "deadlinecause"}[k]
+			sc.Deadline, sc.TimeoutNs = 93, 1
+		}},
 		{"timed-cancel", func(sc *scenario, k int) { sc.Ctx, sc.Plan = "cancel", plan{Kind: "at", At: 10*k + 7} }},
 		{"timed-cancel/custom+later-timeout", func(sc *scenario, k int) {
 			sc.Ctx, sc.Timeout, sc.Plan = "custom", 10*k+15, plan{Kind: "at", At: 10*k + 7}
@@ -613,7 +633,7 @@ func TestEveryExpiryInstant(t *testing.T) {
 			}
 		}
 	}
-	hx.Part("16 kinds of limit x 8 instants x (5 stalling/slow peers + 2 peers stalling inside the crypto/tls handshake) x NetDial delay {0,20ms} x {default write buffer, 64-byte write buffer, slow SetDeadline, TLSClient+WrapConn wrappers}", total, true)
+	hx.Part("18 kinds of limit x 8 instants x (5 stalling/slow peers + 2 peers stalling inside the crypto/tls handshake) x NetDial delay {0,20ms} x {default write buffer, 64-byte write buffer, slow SetDeadline, TLSClient+WrapConn wrappers}", total, true)
 }
 
 // ---------------------------------------------------------------------------
